@@ -19,6 +19,10 @@ package txexec
 //	xfer t v    real inter-call transfer from the contract to EOA t
 //	            (ContractManager.GetCallHandler(CTypeTransfer) -> TransferHandler, new frame), failure caught
 //	exit s      the current frame returns status s mod 1000 (0 = success)
+//	grant a / revoke a   ValidatorState.Add / Remove of EOA a (the last validator is never removed)
+//	dep v / wdr v        the contract moves v between its balance and its fee-sharing deposit
+//	            (AccountState.AddDeposit / WithdrawDeposit, deposit term 0 = one in-place v2 deposit);
+//	            in the model the deposit is the balance of pseudo account 7: OMove 5 7 v / OMove 7 5 v
 //	hang a      the frame reports the Timeout status; with a = 1 in an asynchronous frame it
 //	            really never answers, so the call-context timer (waitResult) fires
 //
@@ -174,6 +178,53 @@ func (in *interp) step(cc contract.CallContext, async bool, logger log.Logger) (
 				code = -code
 			}
 			return nil, false, status(code)
+		case "grant", "revoke":
+			if op.A < 0 || op.A > IDTreasury {
+				continue // only externally owned accounts can be validators
+			}
+			v, err := state.ValidatorFromAddress(addrs[op.A])
+			if err != nil {
+				panic(err)
+			}
+			vs := cc.GetValidatorState()
+			if op.K == "grant" {
+				if err := vs.Add(v); err != nil {
+					panic(err)
+				}
+			} else if vs.Len() > 1 { // the scripted contract never removes the last validator
+				vs.Remove(v)
+			}
+		case "dep", "wdr":
+			// the contract puts `amt` of its own balance into its (v2, term 0) deposit, or
+			// takes it back; guarded like a transfer between the balance and the deposit
+			amt := bigOf(op.V)
+			if amt.Sign() < 0 {
+				return nil, false, scoreresult.InvalidParameterError.New("verif: negative deposit amount")
+			}
+			as := cc.GetAccountState(addrs[IDScript].ID())
+			if op.K == "dep" {
+				b := as.GetBalance()
+				if b.Cmp(amt) < 0 {
+					return nil, false, scoreresult.ErrOutOfBalance
+				}
+				if amt.Sign() > 0 {
+					as.SetBalance(new(big.Int).Sub(b, amt))
+					if err := as.AddDeposit(cc, amt); err != nil {
+						panic(err)
+					}
+				}
+			} else {
+				if depositOf(cc, as).Cmp(amt) < 0 {
+					return nil, false, scoreresult.ErrOutOfBalance
+				}
+				if amt.Sign() > 0 {
+					got, _, err := as.WithdrawDeposit(cc, []byte{}, amt)
+					if err != nil || got.Cmp(amt) != 0 {
+						panic(fmt.Sprint("withdraw: ", got, err))
+					}
+					as.SetBalance(new(big.Int).Add(as.GetBalance(), amt))
+				}
+			}
 		case "hang":
 			// A=1: really never answer (asynchronous frames only; the call-context timer
 			// fires); otherwise report the Timeout status
